@@ -284,12 +284,14 @@ def run(ctx):
     #      UserWarning when it truncates float64 without x64.  simplefilter("error") around the conversion makes those ordered pairs raise.
     esc = []
     for f_ in repo.all_functions():
+        if f_.ident.split(":")[0] not in ("aspire.utils", "aspire.samples"):
+            continue  # the conversion layer
         for n_ in walk_no_nested(f_.node):
             if isinstance(n_, ast.Call) and isinstance(n_.func, ast.Attribute) and n_.func.attr in ("simplefilter", "filterwarnings") and n_.args \
                     and isinstance(n_.args[0], ast.Constant) and n_.args[0].value == "error":
                 esc.append((f_, n_))
     ctx.decide(not esc, "C15.helpers", "package", loc_of(esc[0][0], esc[0][1]) if esc else "src/aspire",
-               "no function of the package escalates warnings to errors",
+               "no function of the conversion layer (aspire.utils, aspire.samples) escalates warnings to errors",
                (f"{esc[0][0].ident} runs `{ast.unparse(esc[0][1])[:60]}`: inside that block a library warning becomes an exception -- PyTorch warns (UserWarning) when it is handed a read-only NumPy "
                 "array, which is what NumPy's view of a JAX buffer is, so a proposal drawn with flowjax and converted to torch raises instead of converting") if esc else "", disc="warnings-as-errors")
     # ---- conversion helpers (entries of the frozen transparent-wrapper table) are value preserving
@@ -374,6 +376,27 @@ def run(ctx):
     ctx.count("transform_constructions_in_front_end_and_samplers", n_tc)
     # ---- buffers a sampler allocates in the run's namespace carry the run's dtype: xp.empty / zeros / ones / full without one give the namespace default,
     #      and an indexed update (x[i] = y, x.at[i].set(y)) keeps the buffer's dtype, so a population collected in such a buffer is rounded on the way in
+    def _holds_population(fn_, alloc_):
+        """is the allocated buffer filled by indexed updates or handed to a sample-set constructor? (a scratch array that is only read is not judged)"""
+        tgt = None
+        for a_ in walk_no_nested(fn_.node):
+            if isinstance(a_, ast.Assign) and a_.value is alloc_ and len(a_.targets) == 1 and isinstance(a_.targets[0], ast.Name):
+                tgt = a_.targets[0].id
+        if tgt is None:
+            return True  # used in place (an argument, a return value): judged
+        for u_ in walk_no_nested(fn_.node):
+            if isinstance(u_, ast.Call):
+                nm_ = getattr(u_.func, "id", getattr(u_.func, "attr", None))
+                args_ = list(u_.args) + [k.value for k in u_.keywords]
+                if nm_ in ("update_at_indices",) + tuple(CLASSES) and any(isinstance(x_, ast.Name) and x_.id == tgt for x_ in args_):
+                    return True
+            if isinstance(u_, ast.Subscript) and isinstance(u_.ctx, ast.Store) and isinstance(u_.value, ast.Name) and u_.value.id == tgt:
+                return True
+            if isinstance(u_, ast.Attribute) and u_.attr == "at" and isinstance(u_.value, ast.Name) and u_.value.id == tgt:
+                return True
+            if isinstance(u_, ast.Return) and u_.value is not None and any(isinstance(x_, ast.Name) and x_.id == tgt for x_ in ast.walk(u_.value)):
+                return True
+        return False
     n_al = 0
     bad_al = []
     for f_ in repo.all_functions():
@@ -384,7 +407,7 @@ def run(ctx):
             if (isinstance(n_, ast.Call) and isinstance(n_.func, ast.Attribute) and n_.func.attr in ("empty", "zeros", "ones", "full")
                     and isinstance(n_.func.value, ast.Attribute) and n_.func.value.attr == "xp"):
                 n_al += 1
-                if not any(k.arg == "dtype" or k.arg is None for k in n_.keywords):
+                if not any(k.arg == "dtype" or k.arg is None for k in n_.keywords) and _holds_population(f_, n_):
                     bad_al.append((f_, n_))
     for f_, n_ in bad_al:
         ctx.refute("C15.pop", f_.ident, loc_of(f_, n_), f"{ast.unparse(n_)[:60]} allocates a buffer in the namespace's default dtype: what is written into it (indexed update) is rounded to that "
@@ -646,7 +669,7 @@ MUTANTS += [
     M("Samples.to_namespace hands over the source dtype", _S, "dtype = convert_dtype(self.dtype, xp)\n        return self.__class__(\n            x=asarray(self.x, xp, dtype=dtype),", "dtype = self.dtype\n        return self.__class__(\n            x=asarray(self.x, xp, dtype=dtype),", ("C15.dtype", "C15.asarray")),
     M("SMCSamples.to_namespace loses beta", _S, "samples = super().to_namespace(xp, dtype=dtype)\n        samples.beta = self.beta\n", "samples = super().to_namespace(xp, dtype=dtype)\n", "C15.carry"),
     M("zuko log_prob with autograd", "src/aspire/flows/torch/flows.py", "with torch.no_grad():\n            x_prime, log_abs_det_jacobian = self.rescale(x)\n            log_prob = self._flow().log_prob(x_prime) + log_abs_det_jacobian", "if True:\n            x_prime, log_abs_det_jacobian = self.rescale(x)\n            log_prob = self._flow().log_prob(x_prime) + log_abs_det_jacobian", "C15.grad"),
-    M("initial population collected in a default-dtype buffer", "src/aspire/samplers/mcmc.py", "n_samples_drawn = 0\n        samples = None\n", "n_samples_drawn = 0\n        samples = None\n        buf = self.xp.empty((n_samples, self.dims))\n", "C15.pop"),
+    M("initial population collected in a default-dtype buffer", "src/aspire/samplers/mcmc.py", "n_samples_drawn = 0\n        samples = None\n", "n_samples_drawn = 0\n        samples = None\n        buf = self.xp.empty((n_samples, self.dims))\n        buf[:0] = buf[:0]\n", "C15.pop"),
     M("minipcn samples without dtype", "src/aspire/samplers/mcmc.py", "x, xp=self.xp, parameters=self.parameters, dtype=self.dtype", "x, xp=self.xp, parameters=self.parameters", "C15.pop", within="MiniPCN.sample"),
 ]
 _U = "src/aspire/utils.py"
@@ -657,6 +680,7 @@ MUTANTS += [
     M("to_numpy returns something else on the fallback path", _U, "except (ValueError, NotImplementedError):\n        return np.asarray(x, **kwargs)", "except (ValueError, NotImplementedError):\n        return np.zeros_like(x)", "C15.helpers"),
 ]
 NEUTRALS = [
+    M("scratch array without a dtype that is only read (not a population buffer)", "src/aspire/samplers/mcmc.py", "n_samples_drawn = 0\n        samples = None\n", "n_samples_drawn = 0\n        samples = None\n        scratch = self.xp.zeros(3)\n        _ = float(scratch[0])\n"),
     M("initial population collected in a buffer of the sampler's dtype", "src/aspire/samplers/mcmc.py", "n_samples_drawn = 0\n        samples = None\n", "n_samples_drawn = 0\n        samples = None\n        buf = self.xp.empty((n_samples, self.dims), dtype=self.dtype)\n"),
     M("torch to JAX hand-over through DLPack of a contiguous copy", "src/aspire/utils.py", "if dtype is not None:\n        kwargs[\"dtype\"] = resolve_dtype(dtype, xp=xp)\n    return xp.asarray(x, **kwargs)",
       "if is_torch_array(x) and is_jax_namespace(xp) and not kwargs:\n        array = xp.from_dlpack(x.detach().contiguous())\n        if dtype is not None:\n            array = array.astype(resolve_dtype(dtype, xp=xp))\n        return array\n    if dtype is not None:\n        kwargs[\"dtype\"] = resolve_dtype(dtype, xp=xp)\n    return xp.asarray(x, **kwargs)"),
